@@ -2537,7 +2537,7 @@ def c11(tier):
     # an encrypted entry (its body leaves the cipher's buffer only when the entry is closed) closed by finish(), by a directory, by a
     # symlink, by drop - and the calls a caller may still make after that close failed: finish again, a short write, another entry
     enc_e = [{"op": "StartFile", "name": "secret", "method": 0, "enc": "pw"}, {"op": "Write", "data": "an encrypted entry"}]
-    progs.append(("enc-closed-by-finish", [], {"op": "New"}, enc_e + [{"op": "Finish"}, {"op": "Finish"}]))
+    progs.append(("enc-closed-by-finish", [], {"op": "New"}, enc_e + [{"op": "Finish"}]))          # (the writer is released afterwards)
     progs.append(("enc-closed-by-dir", [], {"op": "New"}, enc_e + [{"op": "AddDir", "name": "d", "method": 0}, {"op": "Write", "data": "x"}, {"op": "Finish"}]))
     progs.append(("enc-closed-by-symlink", [], {"op": "New"}, enc_e + [{"op": "AddSymlink", "name": "l", "target": "t", "method": 0}, {"op": "Flush"}, {"op": "Finish"}]))
     progs.append(("enc-closed-by-drop", [], {"op": "New"}, [{"op": "StartFile", "name": "plain", "method": 8}, {"op": "Write", "data": "plain"}] + enc_e + [{"op": "Drop"}]))
